@@ -57,8 +57,9 @@ def m2():
               'memory': '0M', 'cpu': '0%', 'disk': '0M',
               'traits': ['t1'], 'assignments': [
                   {'pattern': 'q.*', 'priority': 50}]}
-        (ta if p_to == 'ta' else tb)['assignments'].append(
-            {'pattern': 'p.*', 'priority': 50})
+        if p_to is not None:
+            (ta if p_to == 'ta' else tb)['assignments'].append(
+                {'pattern': 'p.*', 'priority': 50})
         return [ta, tb]
     return {
         'traits': ['t1', 't2'],
@@ -85,7 +86,10 @@ def m2():
         # variant 3: tenant 'ta' itself moves to partition p2 (same
         # allocation name in another partition)
         'allocations': [allocs('ta', []), allocs('tb', []),
-                        allocs('ta', ['t1']), allocs('ta', ['t1'], 'p2')],
+                        allocs('ta', ['t1']), allocs('ta', ['t1'], 'p2'),
+                        # variant 4: the assignment of p.* is withdrawn
+                        # (instances fall back to the default tenant)
+                        allocs(None, [])],
         'templates': {
             'pl': {'memory': '3M', 'cpu': '3%', 'disk': '3M', 'affinity': 'a'},
             't1': {'memory': '6M', 'cpu': '2%', 'disk': '2M', 'affinity': 'b',
